@@ -693,3 +693,39 @@ unsafe impl<'a, P: Px> fr::ImageViewMut for UserViewMut<'a, P> {
         })
     }
 }
+
+// ---------------------------------------------------------------- dynamic images with a window (C16, C17)
+
+/// An owned dynamic image `pw x ph` filled with `fill`, whose window `w x h` at `(left, top)` holds `win` (row-major bytes).
+pub fn image_with_window(pt: fr::PixelType, win: &[u8], w: u32, h: u32, left: u32, top: u32, pw: u32, ph: u32, fill: u8) -> Image<'static> {
+    let ps = pt.size();
+    let mut img = Image::new(pw, ph, pt);
+    let b = img.buffer_mut();
+    b.fill(fill);
+    for y in 0..h as usize {
+        let o = ((top as usize + y) * pw as usize + left as usize) * ps;
+        b[o..o + w as usize * ps].copy_from_slice(&win[y * w as usize * ps..(y + 1) * w as usize * ps]);
+    }
+    img
+}
+
+/// The bytes of the window `w x h` at `(left, top)` of a dynamic image, and whether every byte outside it still equals `fill`.
+pub fn window_of_image(img: &Image, w: u32, h: u32, left: u32, top: u32, fill: u8) -> (Vec<u8>, bool) {
+    let ps = img.pixel_type().size();
+    let (pw, ph) = (img.width() as usize, img.height() as usize);
+    let b = img.buffer();
+    let mut out = Vec::with_capacity(w as usize * h as usize * ps);
+    let mut clean = true;
+    for y in 0..ph {
+        for x in 0..pw {
+            let inside = x >= left as usize && x < (left + w) as usize && y >= top as usize && y < (top + h) as usize;
+            let px = &b[(y * pw + x) * ps..(y * pw + x + 1) * ps];
+            if inside {
+                out.extend_from_slice(px);
+            } else if px.iter().any(|&v| v != fill) {
+                clean = false;
+            }
+        }
+    }
+    (out, clean)
+}
